@@ -285,8 +285,12 @@ class Mpo(MatrixProduct):
         # evaluate the symbolic mpo
         assert model.basis is not None
 
-        for impo, mo in enumerate(self.symbolic_mpo):
-            mo_mat = symbolic_mo_to_numeric_mo(model.basis[impo], mo, self.dtype)
+        mo_mat_list = [symbolic_mo_to_numeric_mo(model.basis[impo], mo, self.dtype)
+                       for impo, mo in enumerate(self.symbolic_mpo)]
+        # the local matrices may be complex although all the factors are real
+        if any(np.iscomplexobj(mo_mat) for mo_mat in mo_mat_list):
+            self.dtype = np.result_type(self.dtype, np.complex128)
+        for mo_mat in mo_mat_list:
             self.append(mo_mat)
 
 
